@@ -5,7 +5,7 @@ namespace Replay.C17
 open Lean NS Offline
 
 def parseCfg (j : Json) : Except String Cfg := do
-  pure { enableLag := ← jInt j "enable_lag", disableLag := ← jInt j "disable_lag", maxOfflinePct := ← jInt j "pct",
+  pure { enableLag := (← jInt j "enable_lag") * lagScale, disableLag := (← jInt j "disable_lag") * lagScale, maxOfflinePct := ← jInt j "pct",
          azSeparator := ← jStr j "sep", enableInterval := ← jInt j "interval" }
 
 def actName : Act → String
